@@ -55,3 +55,43 @@ Definition syscase_result (c : syscase) : Z :=
 
 Fixpoint results (cs : list syscase) : list Z :=
   match cs with [] => [] | c :: r => syscase_result c :: results r end.
+
+(* ---------------------------------------------------------------- C07: space held by live contents
+   After every edit the implementation's data space (sum over PyCdlib.inodes of
+   ceil(data_length / 2048)) must equal the space of the DISTINCT live blobs of the specification:
+   content is stored once and released exactly when its last reference goes. *)
+Fixpoint size_of (sizes : list (Z * Z)) (b : Z) : Z :=
+  match sizes with
+  | [] => 0
+  | (k, v) :: r => if k =? b then v else size_of r b
+  end.
+
+Fixpoint nodupZ (l : list Z) : list Z :=
+  match l with
+  | [] => []
+  | x :: r => if existsb (Z.eqb x) r then nodupZ r else x :: nodupZ r
+  end.
+
+Definition data_sectors (sizes : list (Z * Z)) (s : fs) : Z :=
+  fold_right Z.add 0 (map (fun b => (size_of sizes b + 2047) / 2048) (nodupZ (live_blobs s))).
+
+Fixpoint run_probe (sizes : list (Z * Z)) (s : fs) (ops : list op) : list Z :=
+  match ops with
+  | [] => []
+  | o :: r => let s1 := fst (step s o) in data_sectors sizes s1 :: run_probe sizes s1 r
+  end.
+
+Fixpoint first_mismatch (k : Z) (a b : list Z) : Z :=
+  match a, b with
+  | [], [] => -1
+  | x :: r, y :: r' => if x =? y then first_mismatch (k + 1) r r' else k
+  | _, _ => k
+  end.
+
+Record probecase := { q_ops : list op; q_expected : list Z; q_sizes : list (Z * Z) }.
+
+(* -1 = agree at every step; i = first edit after which the data space differs *)
+Definition probe_result (c : probecase) : Z := first_mismatch 0 (run_probe (q_sizes c) empty_fs (q_ops c)) (q_expected c).
+
+Fixpoint probe_results (cs : list probecase) : list Z :=
+  match cs with [] => [] | c :: r => probe_result c + 1 :: probe_results r end.   (* +1: 0 = agree (nat-parsable) *)
